@@ -1,5 +1,6 @@
 """SMT back ends: z3 5.x API first, then z3 nlsat tactic, then /usr/bin/cvc5 on the SMT-LIB dump."""
 import os
+import re
 import subprocess
 import tempfile
 import time
@@ -99,7 +100,7 @@ def abstract_uf(fmls):
     return [walk(z3.simplify(f), memo) for f in fmls]
 
 
-def check_sat(fmls, timeout_ms=10000, want_model=True, use_cvc5=True):
+def check_sat(fmls, timeout_ms=10000, want_model=True, use_cvc5=True, first_only=False):
     """decide satisfiability of the conjunction `fmls`.
     returns (status in {'unsat','sat','unknown'}, model dict or None, seconds, backend)"""
     t0 = time.time()
@@ -135,6 +136,8 @@ def check_sat(fmls, timeout_ms=10000, want_model=True, use_cvc5=True):
         return 'unsat', None, time.time() - t0, 'z3'
     if r == z3.sat:
         return 'sat', (_model_to_dict(so.model()) if want_model else None), time.time() - t0, 'z3'
+    if first_only:
+        return 'unknown', None, time.time() - t0, 'z3'
     # second chance: nlsat tactic when there are no uninterpreted functions
     if not _has_uf(fmls):
         try:
@@ -157,7 +160,70 @@ def check_sat(fmls, timeout_ms=10000, want_model=True, use_cvc5=True):
     return 'unknown', None, time.time() - t0, 'z3+cvc5'
 
 
+_FRESH = re.compile(r'!(\d+)$')
+
+
+def _fresh_vars(f, cache={}):
+    """{name: index} of the let-bound / fresh constants (z3 names `base!N`) occurring in f"""
+    key = f.get_id()
+    if key in cache:
+        return cache[key]
+    out, seen, todo = {}, set(), [f]
+    while todo:
+        t = todo.pop()
+        if t.get_id() in seen:
+            continue
+        seen.add(t.get_id())
+        if z3.is_const(t) and t.decl().kind() == z3.Z3_OP_UNINTERPRETED:
+            m = _FRESH.search(t.decl().name())
+            if m:
+                out[t.decl().name()] = int(m.group(1))
+        else:
+            todo.extend(t.children())
+    if len(cache) > 20000:
+        cache.clear()
+    cache[key] = out
+    return out
+
+
+def slice_hyps(hyps, goal):
+    """cone of influence over let-bound variables: a hypothesis is `about` its newest fresh variable (a let definition introduces
+    it, a path condition tests it); keep the hypotheses without fresh variables and those about a variable the goal (transitively)
+    depends on.  Dropping hypotheses is sound for validity; the caller falls back to the full set when the slice does not prove."""
+    S = set(_fresh_vars(goal))
+    info = [(h, _fresh_vars(h)) for h in hyps]
+    keep = [not fv for _, fv in info]
+    changed = True
+    while changed:
+        changed = False
+        for i, (h, fv) in enumerate(info):
+            if keep[i] or not fv:
+                continue
+            newest = max(fv, key=fv.get)
+            if newest in S:
+                keep[i] = True
+                changed = True
+                S |= set(fv)
+    return [h for (h, _), k in zip(info, keep) if k]
+
+
 def prove(hyps, goal, timeout_ms=10000):
-    """(hyps => goal) valid?  returns (status in {'proved','failed','unknown'}, model, secs, backend)"""
-    st, m, s, b = check_sat(list(hyps) + [z3.Not(goal)], timeout_ms)
-    return {'unsat': 'proved', 'sat': 'failed', 'unknown': 'unknown'}[st], m, s, b
+    """(hyps => goal) valid?  returns (status in {'proved','failed','unknown'}, model, secs, backend)
+    order: all hypotheses with a short budget (most obligations take milliseconds); if undecided, the cone-of-influence slice of
+    the hypotheses (sound: fewer hypotheses); if still undecided, all hypotheses with the full budget"""
+    hyps = list(hyps)
+    neg = [z3.Not(goal)]
+    quick = min(4000, timeout_ms)
+    st, m, s, b = check_sat(hyps + neg, quick, first_only=quick < timeout_ms)
+    spent = s
+    if st != 'unknown' or quick >= timeout_ms:
+        return {'unsat': 'proved', 'sat': 'failed', 'unknown': 'unknown'}[st], m, spent, b
+    if any(_fresh_vars(h) for h in hyps):
+        sl = slice_hyps(hyps, goal)
+        if len(sl) < len(hyps):
+            st, m, s, b = check_sat(sl + neg, max(2000, timeout_ms // 4))
+            spent += s
+            if st == 'unsat':
+                return 'proved', m, spent, b + '(sliced)'
+    st, m, s, b = check_sat(hyps + neg, timeout_ms)
+    return {'unsat': 'proved', 'sat': 'failed', 'unknown': 'unknown'}[st], m, s + spent, b
